@@ -112,6 +112,10 @@ def gen_merge_case(r, tier='quick', force=None):
     # differing slice normals on some inputs (per-slice data of that input must be ignored)
     if r.random() < 0.12:
         case['flip_normal'] = sorted(r.sample(range(n), r.randint(1, max(1, n - 1))))
+    # the caller passes its own affine (as NiftiWrapper.from_sequence does): when its slice normal
+    # differs from the extensions' none of the per-slice data is used
+    if r.random() < 0.12:
+        case['result_affine'] = 'rotated'
     return case
 
 
@@ -124,6 +128,17 @@ def case_affine(case, i):
         A = np.eye(4)
         A[sd, sd] = 0.0; A[sd, o] = 1.0
         A[o, o] = 0.0; A[o, sd] = 1.0
+    return A
+
+
+def result_affine(case):
+    if case.get('result_affine') != 'rotated':
+        return None
+    sd = case['sd']
+    o = (sd + 1) % 3
+    A = np.eye(4)
+    A[sd, sd] = 0.0; A[sd, o] = 1.0
+    A[o, o] = 0.0; A[o, sd] = 1.0
     return A
 
 
@@ -165,7 +180,11 @@ def run_merge(case):
     exts = build_inputs(case)
     before = [e.to_json() if _valid(e) else json.dumps(e._content, default=str) for e in exts]
     try:
-        res = m.DcmMetaExtension.from_sequence(exts, case['dim'])
+        ra = result_affine(case)
+        if ra is None:
+            res = m.DcmMetaExtension.from_sequence(exts, case['dim'])
+        else:
+            res = m.DcmMetaExtension.from_sequence(exts, case['dim'], ra)
         status = 'ok'
     except Exception as e:  # noqa
         res, status = None, exc_kind(e)
@@ -190,7 +209,7 @@ def model_merge_req(case, exts):
     if any(x is None for x in ms):
         return None
     return {'op': 'from_sequence', 'exts': ms, 'dim': case['dim'], 'sd': None,
-            'use': normals_use(exts)}
+            'use': normals_use(exts, affine=result_affine(case))}
 
 
 def compare_model(ans, status, res_ext):
@@ -223,7 +242,7 @@ def oracle_merge_lookup(case, out):
     if out['status'] != 'ok':
         return ['from_sequence raised %s on mergeable inputs' % out.get('error', out['status'])]
     res, exts = out['result'], out['inputs']
-    use = normals_use(exts)
+    use = normals_use(exts, affine=result_affine(case))
     iS, iT, iV = M.dims_of(case['in_shape'], case['sd'])
     keys = []
     for e in exts:
